@@ -551,7 +551,7 @@ class EventPlaneFlow(FlowInterface.FlowInterface):
             )
             flow_bin.append(
                 self.__calculate_flow_event_average(
-                    particle_data, flow_values, psi_values
+                    particles_bin[bin], flow_values, psi_values
                 )
             )
 
